@@ -552,6 +552,7 @@ pub fn generate(run_seed: u64, quick: bool) -> Scenario {
             ops,
             preempt_ticks: vec![],
             preempt_sites: vec![],
+            preempt_hit: vec![],
         }],
         sched: SchedSpec::RoundRobin,
         fuel: crate::eval::fuel_override().unwrap_or(FUEL),
